@@ -281,12 +281,14 @@ Proof.
   change 31 with (N.ones 5). rewrite N.land_ones. now apply N.mod_upper_bound.
 Qed.
 
+Lemma land31_lt x : N.land x 31 < 32.
+Proof. change 31 with (N.ones 5). rewrite N.land_ones. now apply N.mod_upper_bound. Qed.
+
 Ltac Zify.zify_post_hook ::= Z.to_euclidean_division_equations.
 Lemma polymod_from_0_split6 q : q < 2 ^ 30 -> polymod_from 0 (split6 q) = q.
 Proof.
-  intros Hq. pose proof (split6_lt q) as F. unfold split6 in *. cbn [map] in *.
-  repeat match goal with H : Forall _ (_ :: _) |- _ => inversion H; clear H; subst end.
-  rewrite polymod_from_0_six by assumption.
+  intros Hq. unfold split6. cbn [map].
+  rewrite polymod_from_0_six by apply land31_lt.
   change (5 * (5 - 0)) with 25. change (5 * (5 - 1)) with 20. change (5 * (5 - 2)) with 15.
   change (5 * (5 - 3)) with 10. change (5 * (5 - 4)) with 5. change (5 * (5 - 5)) with 0.
   change 31 with (N.ones 5). rewrite !N.land_ones, !N.shiftr_div_pow2.
@@ -312,7 +314,7 @@ Proof.
   assert (Hz : small [0; 0; 0; 0; 0; 0]) by (repeat constructor).
   assert (Hq : q < 2 ^ 30).
   { apply lxor_lt_pow2; [|assumption]. rewrite polymod_from_app. fold x. now apply polymod_from_bound. }
-  replace (split6 q) with (zipxor [0; 0; 0; 0; 0; 0] (split6 q)) by (unfold split6; cbn; now rewrite !N.lxor_0_l).
+  replace (split6 q) with (zipxor [0; 0; 0; 0; 0; 0] (split6 q)) by (unfold split6; cbn [map zipxor]; now rewrite !N.lxor_0_l).
   rewrite <- (N.lxor_0_r x).
   rewrite polymod_from_lin2; try assumption; try reflexivity.
   - rewrite polymod_from_0_split6 by assumption. subst q. rewrite polymod_from_app. fold x.
@@ -355,3 +357,350 @@ Lemma create_checksum_lt hrp data spec : data_ok (create_checksum hrp data spec)
 Proof. unfold create_checksum. apply split6_lt. Qed.
 Lemma create_checksum_length hrp data spec : length (create_checksum hrp data spec) = 6%nat.
 Proof. reflexivity. Qed.
+
+(* ================================================================= C. strings *)
+(* ---------- finite facts about CHARSET ---------- *)
+Definition charset_char_ok (c : N) : bool :=
+  negb (c =? 49) && (lowerc c =? c) && negb (bad_char c) && (find c CHARSET <? 32)
+  && match nth_error CHARSET (N.to_nat (find c CHARSET)) with Some c' => c' =? c | None => false end.
+Lemma charset_chars_fin : forallb charset_char_ok CHARSET = true.
+Proof. vm_compute. reflexivity. Qed.
+Definition charset_index_ok (d : N) : bool :=
+  match nth_error CHARSET (N.to_nat d) with Some c => mem c CHARSET && (find c CHARSET =? d) | None => false end.
+Lemma charset_index_fin : forallb charset_index_ok all32 = true.
+Proof. vm_compute. reflexivity. Qed.
+
+Lemma mem_In x l : mem x l = true <-> In x l.
+Proof.
+  unfold mem. rewrite existsb_exists. split.
+  - intros (y & Hy & E). apply N.eqb_eq in E. now subst.
+  - intros H. exists x. split; [assumption | apply N.eqb_refl].
+Qed.
+Lemma charset_char x : mem x CHARSET = true ->
+  x <> 49 /\ lowerc x = x /\ bad_char x = false /\ find x CHARSET < 32
+  /\ nth_error CHARSET (N.to_nat (find x CHARSET)) = Some x.
+Proof.
+  intros H. apply mem_In in H. pose proof charset_chars_fin as F. rewrite forallb_forall in F.
+  specialize (F x H). unfold charset_char_ok in F.
+  repeat (apply andb_true_iff in F as [F ?]).
+  apply negb_true_iff, N.eqb_neq in F. apply N.eqb_eq in H3. apply negb_true_iff in H2. apply N.ltb_lt in H1.
+  destruct (nth_error _ _) as [c'|]; [|discriminate]. apply N.eqb_eq in H0. subst. repeat split; assumption.
+Qed.
+Lemma charset_index d : d < 32 ->
+  exists c, nth_error CHARSET (N.to_nat d) = Some c /\ mem c CHARSET = true /\ find c CHARSET = d.
+Proof.
+  intros H. pose proof charset_index_fin as F. rewrite forallb_forall in F.
+  specialize (F d (in_all32 d H)). unfold charset_index_ok in F.
+  destruct (nth_error _ _) as [c|]; [|discriminate]. exists c.
+  apply andb_true_iff in F as [F1 F2]. apply N.eqb_eq in F2. now repeat split.
+Qed.
+Lemma find_inj x y : mem x CHARSET = true -> mem y CHARSET = true -> find x CHARSET = find y CHARSET -> x = y.
+Proof.
+  intros Hx Hy E. destruct (charset_char x Hx) as (_ & _ & _ & _ & Nx).
+  destruct (charset_char y Hy) as (_ & _ & _ & _ & Ny). rewrite E in Nx. congruence.
+Qed.
+
+Definition in_charset (chars : str) : Prop := Forall (fun x => mem x CHARSET = true) chars.
+Lemma in_charset_forallb chars : forallb (fun x => mem x CHARSET) chars = true <-> in_charset chars.
+Proof. unfold in_charset. rewrite forallb_forall, Forall_forall. reflexivity. Qed.
+Lemma in_charset_no_sep chars : in_charset chars -> ~ In 49 chars.
+Proof. intros H Hin. eapply Forall_forall in H; [|exact Hin]. now apply charset_char in H. Qed.
+Lemma find_lt_all chars : in_charset chars -> data_ok (map (fun x => find x CHARSET) chars).
+Proof.
+  intros H. unfold data_ok. apply Forall_forall. intros v Hv. apply in_map_iff in Hv as (x & <- & Hx).
+  eapply Forall_forall in H; [|exact Hx]. now apply charset_char in H.
+Qed.
+
+Lemma charset_get_ok ds : data_ok ds ->
+  exists chars, charset_get ds = Some chars /\ in_charset chars /\ map (fun x => find x CHARSET) chars = ds.
+Proof.
+  induction ds as [|d ds IH]; intros H.
+  - exists []. repeat split. constructor.
+  - inversion H; subst. destruct (IH H3) as (chars & E & Hc & Hm).
+    destruct (charset_index d H2) as (c & Hn & Hmem & Hf).
+    exists (c :: chars). cbn [charset_get]. rewrite Hn, E. repeat split.
+    + now constructor.
+    + cbn [map]. now rewrite Hf, Hm.
+Qed.
+
+(* ---------- rfind ---------- *)
+Lemma rfind_None c s : rfind c s = None <-> ~ In c s.
+Proof.
+  induction s as [|x s IH]; cbn.
+  - split; [intros _ []|reflexivity].
+  - destruct (rfind c s) as [p|] eqn:E.
+    + split; [discriminate|]. intros H. exfalso. apply H. right.
+      destruct (in_dec N.eq_dec c s) as [Hin|Hn]; [assumption|]. apply IH in Hn. discriminate.
+    + destruct (N.eqb_spec x c) as [->|Hne].
+      * split; [discriminate|]. intros H. exfalso. apply H. now left.
+      * split; [|reflexivity]. intros _ [Hx|Hin]; [congruence|]. now apply IH in Hin.
+Qed.
+Lemma rfind_app_sep c h d : ~ In c d -> rfind c (h ++ c :: d) = Some (length h).
+Proof.
+  intros Hd. induction h as [|x h IH]; cbn.
+  - apply rfind_None in Hd. rewrite Hd, N.eqb_refl. reflexivity.
+  - now rewrite IH.
+Qed.
+Lemma rfind_Some c s p : rfind c s = Some p ->
+  s = firstn p s ++ c :: skipn (S p) s /\ ~ In c (skipn (S p) s) /\ (p < length s)%nat.
+Proof.
+  revert p. induction s as [|x s IH]; intros p H; cbn in H; [discriminate|].
+  destruct (rfind c s) as [q|] eqn:E.
+  - injection H as <-. destruct (IH q eq_refl) as (Hs & Hn & Hl).
+    change (skipn (S (S q)) (x :: s)) with (skipn (S q) s).
+    change (firstn (S q) (x :: s)) with (x :: firstn q s). cbn [app length].
+    repeat split; [now rewrite <- Hs | exact Hn | lia].
+  - destruct (N.eqb_spec x c) as [->|Hne]; [|discriminate]. injection H as <-. cbn.
+    repeat split; [|lia]. now apply rfind_None.
+Qed.
+Lemma rfind_map_stable c f s : (forall x, f x = c <-> x = c) -> rfind c (map f s) = rfind c s.
+Proof.
+  intros Hf. induction s as [|x s IH]; cbn; [reflexivity|]. rewrite IH.
+  destruct (rfind c s); [reflexivity|].
+  destruct (N.eqb_spec (f x) c) as [E|E], (N.eqb_spec x c) as [E'|E']; try reflexivity.
+  - apply (proj1 (Hf x)) in E. contradiction.
+  - exfalso. apply E. now apply (proj2 (Hf x)).
+Qed.
+
+(* ---------- substitution of one character ---------- *)
+Definition subst (i : nat) (c : N) (s : str) : str := firstn i s ++ c :: skipn (S i) s.
+
+Lemma split_nth (s : str) i : (i < length s)%nat -> s = firstn i s ++ nth i s 0 :: skipn (S i) s.
+Proof.
+  revert i. induction s as [|x s IH]; intros [|i] H; cbn in *; try lia; [reflexivity|].
+  f_equal. apply IH. lia.
+Qed.
+Lemma subst_length i c s : (i < length s)%nat -> length (subst i c s) = length s.
+Proof.
+  intros H. unfold subst. rewrite app_length. cbn [length]. rewrite firstn_length, skipn_length. lia.
+Qed.
+Lemma subst_map f i c s : map f (subst i c s) = subst i (f c) (map f s).
+Proof. unfold subst. now rewrite map_app, map_cons, firstn_map, skipn_map. Qed.
+Lemma subst_same i s : (i < length s)%nat -> subst i (nth i s 0) s = s.
+Proof. intros H. unfold subst. symmetry. now apply split_nth. Qed.
+Lemma subst_app_r h x d j c : subst (length h + S j) c (h ++ x :: d) = h ++ x :: subst j c d.
+Proof.
+  unfold subst. rewrite firstn_app_2. cbn [firstn]. rewrite <- app_assoc. cbn [app]. do 3 f_equal.
+  rewrite skipn_app. replace (S (length h + S j) - length h)%nat with (S (S j)) by lia.
+  rewrite skipn_all2 by lia. reflexivity.
+Qed.
+Lemma nth_app_r h x (d : str) j : nth (length h + S j) (h ++ x :: d) 0 = nth j d 0.
+Proof. rewrite app_nth2 by lia. replace (length h + S j - length h)%nat with (S j) by lia. reflexivity. Qed.
+Lemma subst_In x i c s : In x (subst i c s) -> x = c \/ In x s.
+Proof.
+  unfold subst. intros H. apply in_app_or in H as [H|[H|H]].
+  - right. rewrite <- (firstn_skipn i s). apply in_or_app. now left.
+  - now left.
+  - right. rewrite <- (firstn_skipn (S i) s). apply in_or_app. now right.
+Qed.
+Lemma subst_Forall (P : N -> Prop) i c s : P c -> Forall P s -> Forall P (subst i c s).
+Proof.
+  intros Hc Hs. apply Forall_forall. intros x Hx. apply subst_In in Hx as [->|Hx]; [assumption|].
+  eapply Forall_forall in Hs; eassumption.
+Qed.
+
+(* ---------- normal form of bech32_decode_lower on  hrp ++ "1" ++ chars ---------- *)
+Definition decode_parts (h chars : str) : option (str * list N * encoding) :=
+  let n := (length h + 1 + length chars)%nat in
+  if Nat.ltb (length h) 1 || Nat.ltb n (length h + 7) || Nat.ltb MAXLEN n then None else
+  if negb (forallb (fun x => mem x CHARSET) chars) then None else
+  let data := map (fun x => find x CHARSET) chars in
+  match verify_checksum h data with
+  | None => None
+  | Some spec => Some (h, firstn (length data - 6) data, spec)
+  end.
+
+Lemma decode_lower_parts h chars : ~ In 49 chars ->
+  bech32_decode_lower (h ++ 49 :: chars) = decode_parts h chars.
+Proof.
+  intros Hn. unfold bech32_decode_lower, decode_parts. rewrite rfind_app_sep by assumption.
+  rewrite app_length. cbn [length]. replace (length h + S (length chars))%nat with (length h + 1 + length chars)%nat by lia.
+  replace (S (length h)) with (length h + 1)%nat by lia.
+  rewrite skipn_app, skipn_all2 by lia. replace (length h + 1 - length h)%nat with 1%nat by lia. cbn [skipn app].
+  rewrite firstn_app, firstn_all2 by lia. replace (length h - length h)%nat with 0%nat by lia. cbn [firstn].
+  rewrite app_nil_r. reflexivity.
+Qed.
+Lemma decode_lower_inv s r : bech32_decode_lower s = Some r ->
+  exists h chars, s = h ++ 49 :: chars /\ ~ In 49 chars /\ decode_parts h chars = Some r.
+Proof.
+  intros H. destruct (rfind 49 s) as [p|] eqn:E.
+  - destruct (rfind_Some _ _ _ E) as (Hs & Hn & _).
+    exists (firstn p s), (skipn (S p) s). repeat split; try assumption.
+    rewrite <- decode_lower_parts by assumption. now rewrite <- Hs.
+  - unfold bech32_decode_lower in H. rewrite E in H. discriminate.
+Qed.
+
+(* ---------- decode (encode ..) ---------- *)
+Definition hrp_valid (hrp : str) : Prop :=
+  hrp <> [] /\ Forall (fun x => bad_char x = false /\ lowerc x = x) hrp.
+
+Lemma bad_char_lt128 x : bad_char x = false -> x < 128.
+Proof. unfold bad_char. lia. Qed.
+Lemma hrp_valid_ok hrp : hrp_valid hrp -> hrp_ok hrp.
+Proof. intros [_ H]. eapply Forall_impl; [|exact H]. intros a [Ha _]. now apply bad_char_lt128. Qed.
+
+Lemma str_eqb_refl s : str_eqb s s = true.
+Proof. induction s; cbn; [reflexivity|]. now rewrite N.eqb_refl. Qed.
+Lemma str_eqb_eq a : forall b, str_eqb a b = true <-> a = b.
+Proof.
+  induction a as [|x a IH]; intros [|y b]; cbn; split; intros H; try easy.
+  - apply andb_true_iff in H as [H1 H2]. apply N.eqb_eq in H1. apply IH in H2. now subst.
+  - injection H as -> ->. rewrite N.eqb_refl. now apply IH.
+Qed.
+
+Lemma existsb_false_Forall {A} (f : A -> bool) l : existsb f l = false <-> Forall (fun x => f x = false) l.
+Proof.
+  induction l as [|x l IH]; cbn; [split; [constructor | reflexivity]|].
+  rewrite orb_false_iff, IH. split; [intros []; now constructor | intros H; inversion H; now split].
+Qed.
+
+Lemma map_id_Forall (f : N -> N) l : Forall (fun x => f x = x) l -> map f l = l.
+Proof. induction 1 as [|x l Hx _ IH]; cbn [map]; [reflexivity|]. now rewrite Hx, IH. Qed.
+
+Theorem decode_encode hrp data spec : hrp_valid hrp -> data_ok data ->
+  (length hrp + 7 + length data <= MAXLEN)%nat ->
+  exists s, bech32_encode hrp data spec = Some s /\ bech32_decode s = Some (hrp, data, spec_result spec).
+Proof.
+  intros Hh Hd Hlen. unfold bech32_encode.
+  assert (Hall : data_ok (data ++ create_checksum hrp data spec)).
+  { apply Forall_app. split; [assumption | apply create_checksum_lt]. }
+  destruct (charset_get_ok _ Hall) as (chars & E & Hc & Hm). rewrite E.
+  eexists. split; [reflexivity|]. cbn [app].
+  assert (Hl : length chars = (length data + 6)%nat).
+  { rewrite <- (map_length (fun x => find x CHARSET) chars), Hm, app_length. reflexivity. }
+  assert (Hlow : lower (hrp ++ 49 :: chars) = hrp ++ 49 :: chars).
+  { unfold lower. rewrite map_app, map_cons. f_equal; [|f_equal].
+    - destruct Hh as [_ Hh]. apply map_id_Forall. eapply Forall_impl; [|exact Hh]. now intros a [_ Ha].
+    - apply map_id_Forall. eapply Forall_impl; [|exact Hc]. intros a Ha. now apply charset_char in Ha. }
+  unfold bech32_decode. rewrite Hlow.
+  replace (existsb bad_char (hrp ++ 49 :: chars)) with false.
+  2:{ symmetry. apply existsb_false_Forall. apply Forall_app. split; [|constructor; [reflexivity|]].
+      - destruct Hh as [_ Hh]. eapply Forall_impl; [|exact Hh]. now intros a [Ha _].
+      - eapply Forall_impl; [|exact Hc]. intros a Ha. now apply charset_char in Ha. }
+  unfold mixed_case. rewrite Hlow, str_eqb_refl. cbn [negb andb orb].
+  rewrite decode_lower_parts by now apply in_charset_no_sep.
+  unfold decode_parts. rewrite Hl.
+  destruct Hh as [Hne Hh]. assert (0 < length hrp)%nat by (destruct hrp; [congruence | cbn; lia]).
+  replace (Nat.ltb (length hrp) 1) with false by (symmetry; apply Nat.ltb_ge; lia).
+  replace (Nat.ltb _ (length hrp + 7)) with false by (symmetry; apply Nat.ltb_ge; lia).
+  replace (Nat.ltb MAXLEN _) with false by (symmetry; apply Nat.ltb_ge; lia).
+  cbn [orb]. apply in_charset_forallb in Hc. rewrite Hc. cbn [negb].
+  rewrite Hm, create_verify; [|now apply hrp_valid_ok; split|assumption].
+  rewrite app_length, create_checksum_length.
+  replace (length data + 6 - 6)%nat with (length data) by lia.
+  rewrite firstn_app, firstn_all, Nat.sub_diag. cbn [firstn]. now rewrite app_nil_r.
+Qed.
+
+(* ---------- single substitution in the data part ---------- *)
+Lemma decode_parts_Some h chars r : decode_parts h chars = Some r ->
+  (1 <= length h)%nat /\ (6 <= length chars)%nat /\ (length h + 1 + length chars <= MAXLEN)%nat
+  /\ in_charset chars
+  /\ is_valid_const (bech32_polymod (hrp_expand h ++ map (fun x => find x CHARSET) chars)) = true.
+Proof.
+  unfold decode_parts. intros H.
+  destruct (Nat.ltb (length h) 1) eqn:E1; [discriminate|].
+  destruct (Nat.ltb _ (length h + 7)) eqn:E2; [discriminate|].
+  destruct (Nat.ltb MAXLEN _) eqn:E3; [discriminate|]. cbn [orb] in H.
+  destruct (forallb _ chars) eqn:E4; [|discriminate]. cbn [negb] in H.
+  apply Nat.ltb_ge in E1, E2, E3. apply in_charset_forallb in E4.
+  repeat split; try lia; try assumption.
+  destruct (is_valid_const _) eqn:V; [reflexivity|]. apply verify_is_valid in V. now rewrite V in H.
+Qed.
+
+Lemma subst_lower_rejected s r i c p :
+  Forall (fun x => x < 128) s ->
+  bech32_decode_lower s = Some r -> rfind 49 s = Some p -> (p < i < length s)%nat ->
+  c <> 49 -> c <> nth i s 0 ->
+  bech32_decode_lower (subst i c s) = None.
+Proof.
+  intros Hs H Hp Hi Hc1 Hcn.
+  destruct (decode_lower_inv s r H) as (h & chars & -> & Hn & Hd).
+  rewrite rfind_app_sep in Hp by assumption. injection Hp as <-.
+  rewrite app_length in Hi. cbn [length] in Hi.
+  set (j := (i - length h - 1)%nat). assert (Hj : (j < length chars)%nat) by lia.
+  replace i with (length h + S j)%nat in * by lia. clearbody j.
+  rewrite nth_app_r in Hcn. rewrite subst_app_r.
+  assert (Hn' : ~ In 49 (subst j c chars)).
+  { intros Hin. apply subst_In in Hin as [E|Hin]; [congruence | contradiction]. }
+  rewrite decode_lower_parts by assumption.
+  destruct (decode_parts_Some _ _ _ Hd) as (L1 & L6 & Lm & Hcs & Hv).
+  unfold decode_parts. rewrite subst_length by assumption.
+  destruct (_ || _ || _); [reflexivity|].
+  destruct (forallb _ (subst j c chars)) eqn:Hf; [|reflexivity]. cbn [negb].
+  apply in_charset_forallb in Hf.
+  assert (Hcm : mem c CHARSET = true).
+  { unfold in_charset in Hf. rewrite Forall_forall in Hf. apply Hf. unfold subst. apply in_or_app. right. now left. }
+  assert (Hom : mem (nth j chars 0) CHARSET = true).
+  { unfold in_charset in Hcs. rewrite Forall_forall in Hcs. apply Hcs. now apply nth_In. }
+  replace (verify_checksum h _) with (@None encoding); [reflexivity|]. symmetry. apply verify_is_valid.
+  set (fd := fun x => find x CHARSET) in *.
+  assert (Hsplit : map fd chars = map fd (firstn j chars) ++ fd (nth j chars 0) :: map fd (skipn (S j) chars)).
+  { rewrite (split_nth chars j Hj) at 1. now rewrite map_app. }
+  unfold subst. rewrite map_app, map_cons. rewrite Hsplit in Hv.
+  rewrite app_assoc in Hv |- *.
+  assert (Hpre : small (hrp_expand h ++ map fd (firstn j chars))).
+  { apply small_app.
+    - apply hrp_expand_small. apply Forall_app in Hs. apply Hs.
+    - apply small_of_lt32, find_lt_all. unfold in_charset in *. rewrite <- (firstn_skipn j chars) in Hcs.
+      apply Forall_app in Hcs. apply Hcs. }
+  assert (Hpost : small (map fd (skipn (S j) chars))).
+  { apply small_of_lt32, find_lt_all. unfold in_charset in *. rewrite <- (firstn_skipn (S j) chars) in Hcs.
+    apply Forall_app in Hcs. apply Hcs. }
+  assert (Hd1 : fd (nth j chars 0) < 32) by now apply charset_char.
+  assert (Hd2 : fd c < 32) by now apply charset_char.
+  rewrite (polymod_subst _ (fd (nth j chars 0)) (fd c)); try assumption.
+  2,3: change (2 ^ 30) with 1073741824; lia.
+  apply valid_xor_delta; try assumption.
+  - rewrite map_length, skipn_length. unfold TABLE_K, MAXLEN in *. lia.
+  - split; [|now apply lxor_lt32].
+    destruct (N.eq_dec (N.lxor (fd (nth j chars 0)) (fd c)) 0) as [E|E]; [|lia].
+    apply N.lxor_eq in E. apply find_inj in E; try assumption. congruence.
+Qed.
+
+Lemma lowerc_49 x : lowerc x = 49 <-> x = 49.
+Proof. unfold lowerc. destruct ((65 <=? x) && (x <=? 90)) eqn:E; lia. Qed.
+Lemma lowerc_lt x : bad_char x = false -> lowerc x < 128.
+Proof. unfold bad_char, lowerc. destruct ((65 <=? x) && (x <=? 90)) eqn:E; lia. Qed.
+
+Lemma decode_Some_facts s r : bech32_decode s = Some r ->
+  existsb bad_char s = false /\ mixed_case s = false /\ bech32_decode_lower (lower s) = Some r
+  /\ (length s <= MAXLEN)%nat.
+Proof.
+  unfold bech32_decode. intros H.
+  destruct (existsb bad_char s) eqn:E1; [discriminate|]. destruct (mixed_case s) eqn:E2; [discriminate|].
+  cbn [orb] in H. repeat split; try assumption.
+  destruct (decode_lower_inv _ _ H) as (h & chars & E & _ & Hd).
+  apply decode_parts_Some in Hd. rewrite <- (map_length lowerc s). fold (lower s). rewrite E, app_length. cbn [length]. lia.
+Qed.
+
+(* THE single-substitution theorem (data part).  Excluded: c = "1" (moves the separator), positions up to and
+   including the separator; a case-only change decodes to the SAME result (or is rejected as mixed case). *)
+Theorem single_subst s r p i c :
+  bech32_decode s = Some r -> rfind 49 s = Some p -> (p < i < length s)%nat ->
+  c <> 49 -> c <> nth i s 0 ->
+  bech32_decode (subst i c s) = None
+  \/ (lowerc c = lowerc (nth i s 0) /\ bech32_decode (subst i c s) = Some r).
+Proof.
+  intros H Hp Hi Hc Hne. destruct (decode_Some_facts s r H) as (Hb & Hm & Hl & _).
+  unfold bech32_decode at 1 3.
+  destruct (existsb bad_char (subst i c s) || mixed_case (subst i c s)) eqn:G; [now left|].
+  apply orb_false_iff in G as [G1 G2].
+  assert (Bc : bad_char c = false).
+  { rewrite existsb_false_Forall, Forall_forall in G1. apply G1. unfold subst. apply in_or_app. right. now left. }
+  unfold lower. rewrite subst_map. fold (lower s).
+  destruct (N.eq_dec (lowerc c) (lowerc (nth i s 0))) as [E|E].
+  - right. split; [assumption|]. rewrite E. change 0 with (lowerc 0) at 1. unfold lower. rewrite map_nth.
+    change (lowerc 0) with 0. fold (lower s). rewrite subst_same by (unfold lower; rewrite map_length; lia). exact Hl.
+  - left. apply (subst_lower_rejected (lower s) r i (lowerc c) p); try assumption.
+    + rewrite existsb_false_Forall in Hb. unfold lower. apply Forall_forall. intros x Hx.
+      apply in_map_iff in Hx as (y & <- & Hy). rewrite Forall_forall in Hb. now apply lowerc_lt, Hb.
+    + unfold lower. rewrite rfind_map_stable; [assumption | apply lowerc_49].
+    + unfold lower. now rewrite map_length.
+    + intros E'. now apply lowerc_49 in E'.
+    + unfold lower. change 0 with (lowerc 0). now rewrite map_nth.
+Qed.
+
+Example single_subst_nonvacuous :
+  let s := codes "addr1v8xrqjtlfluk9axpmjj5enh0uw0cduwhz7txsqyl36m3ukgqdsn8w" in
+  (exists r, bech32_decode s = Some r) /\ rfind 49 s = Some 4%nat /\ bech32_decode (subst 10 (nth 0 CHARSET 0) s) = None.
+Proof. vm_compute. split; [eexists; reflexivity | split; reflexivity]. Qed.
